@@ -22,7 +22,8 @@ MANIFEST = {
 }
 
 THEOREMS = ["C01_parse_number_total", "C01_legacy_hex_panics", "C01_attr_loop_terminates", "C01_legacy_attr_loop_diverges", "C01_text_decoder_progress",
-            "C01_value_parser_terminates", "C01_expression_parser_never_moves_backwards"]
+            "C01_value_parser_terminates", "C01_expression_parser_never_moves_backwards",
+            "C01_expression_parser_fuel_independent"]
 
 
 def _canon(x):
